@@ -463,6 +463,15 @@ func (e *Engine) mergeStates(fork *node, forkKnown *knownSet, arr []*State) *Sta
 		}
 		m.heaps[k] = m.define(k, e.heapSortOf(k), r)
 	}
+	// closure cells: keep only those equal on every arm
+	for k, v := range m.cellFn {
+		for _, a := range arr {
+			if av, ok := a.cellFn[k]; !ok || av.Fn != v.Fn {
+				delete(m.cellFn, k)
+				break
+			}
+		}
+	}
 	// private objects: only those private on every arm
 	for r := range m.private {
 		for _, a := range arr {
